@@ -22,9 +22,14 @@
                              (what sqlite.ReadStartingWithUser returns for the filter {Object: X})
      excl_sub_cycle / cond_err_swallowed   trigger flags of the Check model V1 for the object (F1/F2
                              reach ListObjects through its internal Check calls; never for the pipeline)
-     weighted_degenerate_intersection      weighted engine fails with an internal error and a relation
-                             reachable from the requested one contains an intersection whose operands
-                             collapse to a single weighted-graph edge (all `this`, or all the same TTU)
+     weighted_degenerate_rewrite           weighted engine fails with an internal error and a relation
+                             reachable from the requested one contains an intersection / exclusion
+                             together with an operator node that has the same `this` / TTU operand twice
+     pipeline_strict_condition_filter      pipeline engine, and the object's value changes when the
+                             tuples are dropped whose condition is not carried by a restriction of
+                             exactly their user type AND kind (ValidateTupleForRead accepts them — F4 —
+                             and so do Check and the other engines; the pipeline's storage filter
+                             ObjectQuery.Conditions does not)
      limit0_error_swallowed  unary Execute with maxResults = 0 on the classic/weighted engine returned
                              without error, a permitted object is missing, and a condition-evaluation
                              error is reachable for this request (some run / candidate stream of the
@@ -59,22 +64,26 @@ let rec rw_equal a b =
   | Diff (a1, a2), Diff (b1, b2) -> rw_equal a1 b1 && rw_equal a2 b2
   | _, _ -> false
 
-(* an intersection whose operands collapse to ONE edge of the weighted graph: all operands are
-   `this` (one LogicalDirectGrouping) or all are the same tuple-to-userset (one LogicalTTUGrouping);
-   typesystem.GetEdgesForIntersection then fails with "invalid edges for source type" *)
-let rec rw_degenerate_inter rw =
+(* degenerate rewrites the weighted graph cannot traverse: an n-ary operator node with two
+   syntactically equal `this` / tuple-to-userset operands (they collapse into ONE logical grouping
+   edge) in a relation whose rewrite also contains an intersection or an exclusion — the
+   intersection / exclusion handlers of reverse_expand_weighted.go then fail with
+   "invalid edges for source type" / "no valid edges found for union" *)
+let rec rw_dup_operand rw =
   match rw with
   | This | Computed _ | TTU _ -> false
-  | Union l -> List.exists rw_degenerate_inter l
-  | Inter l ->
-    (match l with
-     | [] -> false
-     | x :: l' ->
-       (match x with
-        | This | TTU _ -> List.for_all (rw_equal x) l'
-        | _ -> false))
-    || List.exists rw_degenerate_inter l
-  | Diff (b, s) -> rw_degenerate_inter b || rw_degenerate_inter s
+  | Union l | Inter l ->
+    let rec dup = function
+      | [] -> false
+      | x :: l' -> (match x with This | TTU _ -> List.exists (rw_equal x) l' | _ -> false) || dup l' in
+    dup l || List.exists rw_dup_operand l
+  | Diff (b, s) -> rw_dup_operand b || rw_dup_operand s
+let rec rw_has_inter_or_diff rw =
+  match rw with
+  | This | Computed _ | TTU _ -> false
+  | Union l -> List.exists rw_has_inter_or_diff l
+  | Inter _ | Diff _ -> true
+let rw_degenerate rw = rw_dup_operand rw && rw_has_inter_or_diff rw
 
 (* relations reachable from (t, r) through computed usersets, tuple-to-usersets and userset restrictions *)
 let reachable_rels (m : model) (t : n) (r : n) : (n * n) list =
@@ -91,7 +100,7 @@ let reachable_rels (m : model) (t : n) (r : n) : (n * n) list =
   go [(t, r)] []
 let degenerate_inter_reachable (m : model) (t : n) (r : n) =
   List.exists (fun (t', r') ->
-    match get_relation m t' r' with Some rd -> rw_degenerate_inter rd.rd_rw | None -> false) (reachable_rels m t r)
+    match get_relation m t' r' with Some rd -> rw_degenerate rd.rd_rw | None -> false) (reachable_rels m t r)
 
 let eng_s = function 0 -> "classic" | 1 -> "weighted" | 2 -> "pipeline" | _ -> "?"
 let be_s = function 0 -> "memory" | 1 -> "sqlite" | _ -> "?"
@@ -141,6 +150,20 @@ let f _id vs =
               if conv2 then (fun id -> atomval subj v2 (objof id) rel) else spec
             end in
           let leak_obj b id = b = 1 && leaked <> [] && spec_leak id <> spec id in
+          (* the pipeline's per-edge condition filter *)
+          let strict_ok t =
+            match get_relation m t.t_obj.otype t.t_rel with
+            | Some rd -> List.exists (fun d -> d.r_type = subject_type t.t_sub && kind_eqb d.r_kind (subject_kind t.t_sub)
+                                               && d.r_cond = t.t_cond) rd.rd_restr
+            | None -> false in
+          let lax = List.filter (fun t -> valid_for_read m cs t && not (strict_ok t)) store in
+          let spec_strict =
+            if lax = [] then spec
+            else begin
+              let (v3, conv3) = lfp m cs (List.filter (fun t -> not (List.memq t lax)) store) subj ats in
+              if conv3 then (fun id -> atomval subj v3 (objof id) rel) else spec
+            end in
+          let strict_obj e id = e = 2 && lax <> [] && spec_strict id <> spec id in
           let subj_valid =
             (match find_type m (subject_type subj) with Some _ -> true | None -> false) &&
             (match subj with SSet (o, r) -> rel_defined m o.otype r | _ -> true) in
@@ -159,6 +182,7 @@ let f _id vs =
           let deviation ?(l0 = false) b e returned id what =
             let txt = Printf.sprintf "%s: object %d %s (spec=%s)" (where b e) id what (b3s (spec id)) in
             if leak_obj b id then (known "rswu_userset_leak" txt; true)
+            else if strict_obj e id then (known "pipeline_strict_condition_filter" txt; true)
             else if l0 && not returned && e <> 2 && Lazy.force err_evidence then (known "limit0_error_swallowed" txt; true)
             else if e <> 2 then begin
               let (oset, tr) = check_of id in
@@ -185,7 +209,7 @@ let f _id vs =
               else if ec = 2 then props := (w ^ ": depth error") :: !props
               else if ec = 3 then props := (w ^ ": validation error for a valid request") :: !props
               else if ec = 4 then begin
-                if e = 1 && dup_inter then known "weighted_degenerate_intersection" (w ^ ": internal error")
+                if e = 1 && dup_inter then known "weighted_degenerate_rewrite" (w ^ ": internal error")
                 else props := (w ^ ": internal error") :: !props
               end;
               if subj_valid && (ec = 0 || ec = 1) then begin
@@ -225,7 +249,7 @@ let f _id vs =
                    if not (List.exists (fun id -> List.mem AEd (fst (check_of id))) univ) then flag_prop (w ^ ": depth error")
                  | 3 -> flag_prop (w ^ ": validation error for a valid request")
                  | 4 ->
-                   if e = 1 && dup_inter then (known "weighted_degenerate_intersection" (w ^ ": internal error"); bad := true)
+                   if e = 1 && dup_inter then (known "weighted_degenerate_rewrite" (w ^ ": internal error"); bad := true)
                    else flag_prop (w ^ ": internal error")
                  | _ -> ());
                 (* whatever was returned (also before an error / a deadline) must be permitted and duplicate-free *)
